@@ -44,7 +44,7 @@ const char *G_fopen_path;        /* argument of the last fopen() */
 size_t fwrite(const void *ptr, size_t size, size_t n, FILE *f) {
   __CPROVER_precondition(f == G_stream && G_stream_open, "fwrite: stream is the open sink (no use after fclose)");
   __CPROVER_precondition(size == 1, "fwrite: element size 1 (the only form used by the writer)");
-  __CPROVER_precondition(n <= CQV_MAXBUF && __CPROVER_r_ok(ptr, n), "fwrite: source range readable");
+  __CPROVER_precondition(n <= CQV_MAXBUF && (n == 0 || __CPROVER_r_ok(ptr, n)), "fwrite: source range readable");
   size_t r = nondet_size_t();
   __CPROVER_assume(r <= n);
   G_fwrite_calls++;
